@@ -206,6 +206,39 @@ def rule_guard(c: Ctx) -> RuleResult:
     # the opener search: an inner while loop `cursor > bound` (either operand order) whose bound is read from a two-level table
     table = None
     inner_loops = []
+    from ..interproc import expand as _expand0
+
+    def two_level(e: ast.AST, at: ast.AST) -> tuple[str, str, str] | None:
+        """(table, first key, second key) of a cell `T[a][b]` - also when the row is held in a local: `row = T.get(a)` /
+        `T[a]` / `T.setdefault(a, ..)` / `row = T[a] = [...]` (every definition of the row that reaches `at` must agree)."""
+        if not isinstance(e, ast.Subscript) or isinstance(e.slice, ast.Slice):
+            return None
+        bkey = U(_expand0(c, f, e.slice, at))
+        v = e.value
+        if isinstance(v, ast.Subscript) and isinstance(v.value, ast.Name) and not isinstance(v.slice, ast.Slice):
+            return (v.value.id, U(_expand0(c, f, v.slice, at)), bkey)
+        if isinstance(v, ast.Name):
+            found: set[tuple[str, str]] = set()
+            for d in rd.at_ast(at, v.id):
+                cands_: list[ast.AST] = []
+                if d.kind == "assign" and isinstance(d.stmt, ast.Assign):
+                    cands_ = [d.stmt.value] + [t for t in d.stmt.targets if isinstance(t, ast.Subscript)]
+                elif d.kind == "assign" and d.value is not None:
+                    cands_ = [d.value]
+                hit = None
+                for x in cands_:
+                    if isinstance(x, ast.Subscript) and isinstance(x.value, ast.Name) and not isinstance(x.slice, ast.Slice):
+                        hit = (x.value.id, U(_expand0(c, f, x.slice, d.stmt)))
+                    elif isinstance(x, ast.Call) and isinstance(x.func, ast.Attribute) and x.func.attr in ("get", "setdefault") and x.args \
+                            and isinstance(x.func.value, ast.Name):
+                        hit = (x.func.value.id, U(_expand0(c, f, x.args[0], d.stmt)))
+                if hit is None:
+                    return None
+                found.add(hit)
+            if len(found) == 1:
+                t_, a_ = next(iter(found))
+                return (t_, a_, bkey)
+        return None
     for w in own_nodes(f.node):
         if not isinstance(w, ast.While) or not isinstance(w.test, ast.Compare) or len(w.test.ops) != 1:
             continue
@@ -216,8 +249,11 @@ def rule_guard(c: Ctx) -> RuleResult:
                 ds = rd.at_ast(w.test, bnd_e.id)
                 for d in ds:
                     v = expand(c, f, d.value, d.stmt) if d.value is not None and d.stmt is not None else d.value
-                    if isinstance(v, ast.Subscript) and isinstance(v.value, ast.Subscript) and isinstance(v.value.value, ast.Name):
-                        table = v.value.value.id
+                    tl = two_level(v, d.stmt) if v is not None and d.stmt is not None else None
+                    if tl is None and d.value is not None and d.stmt is not None:
+                        tl = two_level(d.value, d.stmt)
+                    if tl is not None:
+                        table = tl[0]
                         inner_loops.append((w, cur_e.id, bnd_e.id))
     tname = table or "<bounds table>"
     from ..interproc import expand as _expand
@@ -231,18 +267,20 @@ def rule_guard(c: Ctx) -> RuleResult:
     for n in own_nodes(f.node):
         if isinstance(n, ast.Subscript) and isinstance(n.ctx, ast.Load):
             e_ = _expand(c, f, n, n)
-            if isinstance(e_, ast.Subscript) and isinstance(e_.value, ast.Subscript) and U(e_.value.value) == tname:
+            tl = two_level(e_, n) or two_level(n, n)
+            if tl is not None and tl[0] == tname:
                 reads.append(n)
-                reads_k.add((U(e_.value.slice), U(e_.slice)))
+                reads_k.add((tl[1], tl[2]))
     writes_k: set[tuple[str, str]] = set()
     writes = []
     for n in own_nodes(f.node):
         if isinstance(n, ast.Assign) and len(n.targets) == 1 and isinstance(n.targets[0], ast.Subscript):
             t_ = n.targets[0]
             e_ = ast.Subscript(value=_expand(c, f, t_.value, n), slice=_expand(c, f, t_.slice, n), ctx=ast.Load())
-            if isinstance(e_.value, ast.Subscript) and U(e_.value.value) == tname:
+            tl = two_level(e_, n) or two_level(ast.Subscript(value=t_.value, slice=t_.slice, ctx=ast.Load()), n)
+            if tl is not None and tl[0] == tname:
                 writes.append(n)
-                writes_k.add((U(e_.value.slice), U(e_.slice)))
+                writes_k.add((tl[1], tl[2]))
 
     def norm(e: ast.AST) -> str:
         class N(ast.NodeTransformer):
